@@ -16,8 +16,10 @@ SeqsUpTo(V, n) == IF n = 0 THEN {<<>>}
                   ELSE LET S == SeqsUpTo(V, n - 1) IN S \cup {Append(s, v) : s \in {x \in S : Len(x) = n - 1}, v \in V}
 
 sS == <<115>>  tT == <<116>>  hH == <<104>>  gG == <<103>>  qQ == <<113>>  fF == <<102>>
-VocA == IF Mode = "pct" THEN {<<97>>, <<37, 50, 102>>, <<37, 52, 49, 66>>, DOTDOT, <<233, 58, 98>>} ELSE {<<97>>, <<98>>, <<>>, DOT, DOTDOT, <<99, 58, 100>>}
-VocB == IF Mode = "pct" THEN {<<97>>, <<37, 50, 70>>, <<65, 37, 52, 50>>} ELSE {<<97>>, <<98>>, <<>>, DOTDOT}
+\* pct mode: escaped vs literal, same-length respellings, DOUBLE encoding (%2541 vs %41) and a letter
+\* whose case differs AFTER an escape (x%20Ab vs x%20ab)
+VocA == IF Mode = "pct" THEN {<<97>>, <<37, 50, 102>>, <<37, 52, 49, 66>>, DOTDOT, <<233, 58, 98>>, <<37, 50, 53, 52, 49>>, <<120, 37, 50, 48, 65, 98>>} ELSE {<<97>>, <<98>>, <<>>, DOT, DOTDOT, <<99, 58, 100>>}
+VocB == IF Mode = "pct" THEN {<<97>>, <<37, 50, 70>>, <<65, 37, 52, 50>>, <<37, 52, 49>>, <<120, 37, 50, 48, 97, 98>>} ELSE {<<97>>, <<98>>, <<>>, DOTDOT}
 
 Good(P) == LET w == Recompose(P) IN InLang(FullTy(Fam), w) /\ Parts(w) = P
 
